@@ -83,6 +83,27 @@ Section Oracles.
     && forallb (fun x => mem x a) b.
 
   (* ---- C01 / C03: one version per component, equal to the lookup -------------------------------- *)
+  (* Factory.GetComponents(), when it was issued and succeeded: one more route to the published versions.  Every
+     component it returns is the version the lookup by name returned and the version every holder holds *)
+  Definition bulk_vers : option (list ver) :=
+    match ob_bulk o with
+    | Some l => if forallb (fun t => match t with LTVer _ => true | _ => false end) l
+                then Some (flat_map (fun t => match t with LTVer v => [v] | _ => [] end) l) else None
+    | None => None
+    end.
+  Definition bulk_agrees : bool :=
+    match bulk_vers with
+    | Some vs =>
+      forallb (fun v => match lookup_of c (owner v) with
+                        | Some (LTVer v') => ver_eqb v v'
+                        | Some _ => false
+                        | None => true
+                        end) vs
+      && forallb (fun f => forallb (fun v => forallb (fun b => negb (Nat.eqb (owner b) (owner v)) || ver_eqb b v) vs) (snd f))
+                 point_fields
+    | None => true
+    end.
+
   Definition oracle_one_version : bool :=
     if ok_start then
       forallb (fun f =>
@@ -90,6 +111,7 @@ Section Oracles.
                           | Some (LTVer v') => ver_eqb v v'
                           | _ => false
                           end) (snd f)) point_fields
+      && bulk_agrees
     else true.
 
   (* ---- never a panic / crash / hang --------------------------------------------------------------- *)
